@@ -133,14 +133,16 @@ pub mod shims {
     /// SHIM (R4): the fn-pointer alias FormatFunction
     #[derive(Clone, Copy)]
     pub struct VFormatFn { _o: () }
-    pub struct DeferredNow { _o: () }
+    //@ include prelude/dnow_shim.rs
     /// oracles: the bytes a format function appends for a record (see unit `swrite`)
     pub uninterp spec fn fmt_bytes(f: VFormatFn, record: &log::Record) -> Seq<u8>;
     pub uninterp spec fn fmt_ok(f: VFormatFn, record: &log::Record) -> bool;
     impl VFormatFn {
         #[verifier::external_body]
         pub fn call(&self, w: &mut Vec<u8>, now: &mut DeferredNow, record: &log::Record) -> (r: Result<(), std::io::Error>)
-            ensures final(w)@ == old(w)@ + fmt_bytes(*self, record), r is Ok <==> fmt_ok(*self, record),
+            requires
+                now_ok(old(now).origin()), //@label FormatFunction::call.same_now C20
+            ensures final(w)@ == old(w)@ + fmt_bytes(*self, record), r is Ok <==> fmt_ok(*self, record), final(now).origin() == old(now).origin(),
         { unimplemented!() }
     }
     /// SHIM for the targets of `write_buffered` / `flush` (StdstreamLock, BufWriter<StdStream>, &mut dyn Write of StdStream)
@@ -251,7 +253,8 @@ pub mod shims {
     pub(crate) fn write_buffered<W: VSink>(format_function: VFormatFn, now: &mut DeferredNow, record: &log::Record, w: &mut W) -> (r: Result<(), std::io::Error>)
         requires
             wb_ok(format_function, record), //@label write_buffered.perm C20
-        ensures r == wb_result(format_function, record),
+            now_ok(old(now).origin()), //@label write_buffered.same_now C20
+        ensures r == wb_result(format_function, record), final(now).origin() == old(now).origin(),
     { unimplemented!() }
 }
 pub mod std_writer {
@@ -318,6 +321,8 @@ pub mod std_writer {
     //@   req[StdWriter::write.pre.perm.sync] forall|f: VFormatFn, rec: &Record| #[trigger] wb_ok(f, rec) <==> (!self.is_async() && f == self.fmt() && rec == record)
     //@   req[StdWriter::write.pre.perm.async] forall|m: Seq<u8>| #[trigger] send_ok(m) <==> (self.is_async() && m == fmt_bytes(self.fmt(), record) + seq![10u8])
     //@   req[StdWriter::write.pre.report] forall|c: ErrorCode| #[trigger] super::util::reportable(c) <==> (c is Format || c is Write)
+    //@   req[StdWriter::write.pre.same_now] forall|o: int| #[trigger] now_ok(o) <==> o == old(now).origin()
+    //@   ens[StdWriter::write.post.same_now] final(now).origin() == old(now).origin()
     //@   ens[StdWriter::write.post.handed_over] !self.is_async() && !self.poisoned() ==> r == wb_result(self.fmt(), record)
     //@   canary
     //@ fn src/primary_writer/std_writer.rs impl LogWriter for StdWriter / fn flush
